@@ -27,6 +27,13 @@ func gen(seed int64, tier string, idx int) *pipe.Scenario {
 	if g.R.Intn(2) == 0 {
 		sc.Topo.DLQ.LatencyUs = []int{1500, 3000, 0}
 	}
+	if idx%5 == 2 {
+		// batching destinations: one response carries the acks of every write that was
+		// waiting behind it (no PRNG draw: the other cases stay what they were)
+		for i := range sc.Topo.Dests {
+			sc.Topo.Dests[i].Dst.CoalesceAcks = true
+		}
+	}
 	// v1: force several workers with per-record latencies on one processor
 	if sc.Engine == "v1" && g.R.Intn(2) == 0 {
 		for i := range sc.Topo.PipeProcs {
